@@ -15,6 +15,8 @@
 //@trusted [env] catalog lookup, B+tree search/insert/update (units btsearch, btentry), tuple building and version stamping (Kani unit tuplelayout), logger (unit wal), secondary-index maintenance and constraint validation are abstract
 //@trusted [env] Tuple::add_version_with is given the contract `the newest version is created by tid`; that contract is what unit tupleversion checks on the real function (and where the open finding update.newest_version_created_by_writer lives)
 //@trusted [pre] a row visible to the writer carries a delete mark only if that mark was left by a rolled-back transaction (a mark of a committed deleter makes the row invisible; marks of concurrent uncommitted deleters are excluded: no write over another transaction's uncommitted write)
+//@trusted [pre] row ids stay below 2^64 - 16 (one per INSERT); column 0 of a full row is its BIGUINT row id (build_full_row writes it, casts go to the column's type)
+//@trusted [sub] `&full_row[0]` is full_row.first_col(); `a.max(b)` on u64 is max_u64(a, b)
 //@trusted [pre] ThreadContext is well formed: ctx.tid() == ctx.snapshot().xid() (both copied from the same TransactionHandle when the context is built)
 //@trusted [sub] `btree.with_cell_at(position, |bytes| { tuple_reader.parse_for_snapshot(bytes, &snapshot).ok()??; Tuple::from_slice_unchecked(bytes).ok() })` is visible_tuple_at(position, &tuple_reader, &snapshot); Box::from(&t) is boxed(&t); HashMap<usize, DataType> is the opaque Assignments; `.expect(msg)` is `.unwrap()`
 use vstd::prelude::*;
@@ -31,6 +33,8 @@ pub type RuntimeResult<T> = Result<T, RtError>;
 pub uninterp spec fn ser(v: u64) -> Seq<u8>;          // UInt64::serialize
 pub uninterp spec fn root_of(oid: u64) -> u64;        // the table's tree root
 pub uninterp spec fn covered(root: u64, key: Seq<u8>) -> bool;
+pub uninterp spec fn persisted_next(table: u64, n: u64) -> bool;   // update_relation stored n as the table's next row id
+pub fn max_u64(a: u64, b: u64) -> (r: u64) ensures r == if a >= b { a } else { b } { if a >= b { a } else { b } }
 
 pub struct InsertResult { pub row_id: u64 }
 pub struct UpdateResult { pub updated: bool }
@@ -66,8 +70,7 @@ impl Schema { #[verifier::external_body] pub fn clone(&self) -> (r: Schema) { un
 pub struct BtreeBuilder { _p: () }
 #[verifier::external_body]
 pub struct IndexHandle { _p: () }
-#[verifier::external_body]
-pub struct DataType { _p: () }
+pub enum DataType { BigUInt(UInt64), Other(u64) }
 #[verifier::external_body]
 pub struct Assignments { _p: () }
 #[verifier::external_body]
@@ -81,6 +84,9 @@ impl Row {
     pub uninterp spec fn vals(&self) -> Seq<DataType>;
     #[verifier::external_body]
     pub fn as_slice(&self) -> (r: &[DataType]) ensures r@ == self.vals() { unimplemented!() }
+    // `&row[0]`: the row id column; the stored row id IS this column's value
+    #[verifier::external_body]
+    pub fn first_col(&self) -> (r: &DataType) ensures r is BigUInt, r matches DataType::BigUInt(u) ==> u.v() == self.rid() && u.v() < 0xffff_ffff_ffff_fff0 { unimplemented!() }
 }
 
 #[verifier::external_body]
@@ -164,7 +170,8 @@ impl Catalog {
         ensures r matches Ok(rel) ==> rel.oid() == id && rel.next() == self.next_row(id) { unimplemented!() }
     #[verifier::external_body]
     pub fn update_relation(&self, id: ObjectId, new_row_id: Option<u64>, new_schema: Option<Schema>, new_stats: Option<Stats>, b: &BtreeBuilder, s: &Snapshot) -> (r: RuntimeResult<()>)
-        requires [C09:insert.persists_incremented_row_id] new_row_id == Some((self.next_row(id) + 1) as u64),
+        requires [C09:insert.row_id_counter_never_goes_back] new_row_id matches Some(n) && n >= self.next_row(id) + 1,
+        ensures r is Ok ==> (new_row_id matches Some(n) ==> persisted_next(id, n)),
     { unimplemented!() }
 }
 
@@ -269,8 +276,11 @@ pub struct DmlExecutor { ctx: ThreadContext, logger: TransactionLogger }
 
 impl DmlExecutor {
     #[verifier::external_body]
+    // full_values[0] = BigUInt(row_id), then every input column is copied to its schema position: if the
+    // caller supplies column 0 itself (recovery does), ITS value is the stored row id -- nothing is
+    // promised about row.rid() vs row_id
     pub fn build_full_row(&self, schema: &Schema, columns: &[usize], values: &Row, row_id: UInt64) -> (r: RuntimeResult<Row>)
-        ensures r matches Ok(row) ==> row.rid() == row_id.v() { unimplemented!() }
+    { unimplemented!() }
     #[verifier::external_body]
     pub fn validate_insert_constraints(&self, relation: &Relation, new_values: &[DataType]) -> (r: RuntimeResult<()>)
         ensures r is Ok ==> vals_ok(new_values@) { unimplemented!() }
@@ -283,8 +293,12 @@ impl DmlExecutor {
 
 //@fn crates/axmos-db/src/runtime/dml.rs | impl DmlExecutor | insert
 //@ sub /Box::from\(&(\w+)\)/ => boxed(&\1)
+//@ sub? /match &full_row\[0\] \{/ => match full_row.first_col() {
+//@ sub? /relation\.next_row_id\(\)\.value\(\)\.max\(row_id\.value\(\) \+ 1\)/ => max_u64(relation.next_row_id().value(), row_id.value() + 1)
+//@ requires
+//@   old(self).ctx.cat().next_row(table_id) < 0xffff_ffff_ffff_fff0,
 //@ ensures
-//@   [C09:insert.returns_the_allocated_row_id] r matches Ok(res) ==> res.row_id == old(self).ctx.cat().next_row(table_id),
+//@   [C09,C01:insert.row_id_counter_stays_ahead_of_the_stored_row] r matches Ok(res) ==> (exists|n: u64| #[trigger] persisted_next(table_id, n) && n > res.row_id && n > old(self).ctx.cat().next_row(table_id)),
 //@end
 
 //@fn crates/axmos-db/src/runtime/dml.rs | impl DmlExecutor | update
